@@ -50,6 +50,7 @@ type Session struct {
 	unixTerms map[string]bool
 	suppressObl bool
 	scanReal map[string]bool
+	scanEvents map[string]bool
 	litCells map[string]map[int]Val
 	litSlices map[string]map[int]Val
 	scanRoots map[string][]T
